@@ -97,6 +97,11 @@ def run(ctx):
     # ---- 2. cell_len: history independence under small caches (evictions) and the real one
     n_hist = 300 if ctx.quick else 6000
     pool = [s for s in all_strings(ALPHA, 3)] + ["x" * 64, "あ" * 64, "y" * 65, "😽" * 70]
+    # long (uncached, > 64 characters) and boundary-length strings of every width class, incl. ASCII control
+    # characters (width 0 in the table) inside otherwise plain ASCII text
+    for n in (63, 64, 65, 66, 80, 200):
+        pool += ["a" * (n - 2) + "\t" + "b", "\x1b" + "z" * (n - 1), "k" * (n - 1) + "\x7f", "q" * (n - 3) + "\x00\x1f ",
+                 "a" * (n - 1) + "̀", "あ" * (n // 2) + "x" * (n - n // 2), " " * n]
     for _ in range(n_hist):
         cap = rng.choice([1, 2, 3, 4, 8])
         calls = [rng.choice(pool) for _ in range(rng.randint(1, 14))]
